@@ -381,7 +381,13 @@ func runC10(c *mon.Ctx) {
 			slo = "" // no single-logout URL configured: only messages without a Destination are addressed to this SP
 			sp.ServiceProviderSLOURL = ""
 		}
-		cs.Desc("%s skip=%v cfgIssuer=%q slo=%q level=%d", lc.Desc, skip, cfgIssuer, slo, level)
+		noStore := false
+		if (lc.State == "unsigned" || lc.State == "unsigned-flag-injected" || lc.State == "unsigned-shadow-attrs") && r.IntN(4) == 0 {
+			// a provider that was never given a certificate store meets a message without any signature: nothing vouches for it
+			sp.IDPCertificateStore = nil
+			noStore = true
+		}
+		cs.Desc("%s skip=%v cfgIssuer=%q slo=%q level=%d nostore=%v", lc.Desc, skip, cfgIssuer, slo, level, noStore)
 		cs.Input([]byte(lc.Doc))
 		enc := sim.Encode(lc.Doc, level)
 		var got logoutGot
